@@ -174,7 +174,12 @@ def _one_cmp(osy, res, op, kind, v1, u1, v2, u2, rel, dt1, dt2, objs=None):
         res.count("repeat-after-mutation")
         new = np.abs(np.asarray(v1)) * 7 + 3
         a.values[...] = new
-        _judge_cmp(osy, res, op, kind, np.array(a.values), u1, v2, u2, rel, dt1, dt2, a, b, again=True)
+        if not _judge_cmp(osy, res, op, kind, np.array(a.values), u1, v2, u2, rel, dt1, dt2, a, b, again=True):
+            return
+        # ... and after the RIGHT operand was changed in place (its buffer, or through an in-place operator)
+        if kind == "array" and np.dtype(dt2).kind == "f" and np.shape(v2):
+            b.values[...] = np.asarray(b.values) * -3 - 1
+            _judge_cmp(osy, res, op, kind, np.array(a.values), u1, np.array(b.values), u2, rel, dt1, dt2, a, b, again=True)
 
 
 def _judge_cmp(osy, res, op, kind, v1, u1, v2, u2, rel, dt1, dt2, a, b, again=False):
